@@ -207,7 +207,7 @@ struct Ctx
 
     void account(const Json& c, const Out& o) {
         st->evaluations += o.evals;
-        st->cases += 1;
+        st->cases += (c.kind == Json::Obj && c.has("__seq")) ? long(c.at("__seq").size()) : 1;
         if (o.discard) { st->discards++; return; }
         bool fresh = false;
         for (uint64_t k : o.keys) fresh |= st->keys.insert(k).second;
@@ -236,11 +236,47 @@ struct Ctx
     }
 
     // enumerated / hand-generated case
-    bool eval(const Json& c) {
+    bool eval_now(const Json& c) {
         Out o = run_check(c);
         account(c, o);
         if (o.failed) record_failure(c, o, false);
         return !o.failed;
+    }
+    // In seq_mode (fresh-thread harnesses) about half of the enumerated cases are executed in groups of 2-3 consecutive cases of
+    // the shard inside ONE fresh thread (the same "__seq" form rapidcheck cases use), so that state leaking from one call of the
+    // library to the next - a memo keyed too coarsely, a scratch buffer not cleared - meets neighbouring parameters.  A failing
+    // group is first re-run member by member (each in its own fresh thread): if one member fails alone, that is the reported case.
+    std::vector<Json> pending;
+    size_t pending_target{1};
+    uint64_t group_counter{0};
+    bool eval(const Json& c) {
+        if (!seq_mode) return eval_now(c);
+        pending.push_back(c);
+        if (pending.size() >= pending_target) flush();
+        return true;
+    }
+    void flush() {
+        if (pending.empty()) return;
+        if (pending.size() == 1) eval_now(pending[0]);
+        else {
+            Json sq = Json::array();
+            for (auto& c : pending) sq.push(c);
+            Json s = Json::object().set("__seq", sq);
+            Out o = run_check(s);
+            bool isolated = false;
+            if (o.failed)
+                for (auto& c : pending) {
+                    Out oi = run_check(c);
+                    if (oi.failed) { account(c, oi); record_failure(c, oi, false); isolated = true; break; }
+                }
+            if (!isolated) {
+                account(s, o);
+                if (o.failed) record_failure(s, o, false);
+            }
+        }
+        pending.clear();
+        const uint64_t h = mix(group_counter++, 0x5E9);
+        pending_target = (h & 1) ? 1 : 2 + ((h >> 8) & 1);
     }
 
 #ifndef VK_NO_RAPIDCHECK
@@ -297,6 +333,9 @@ struct Ctx
     bool no_shrink{false};  // rc(): keep the first failing case as generated (for failures that depend on a thread schedule: shrinking re-runs are not informative)
     bool seq_mode{false};   // rc(): a quarter of the generated cases become short case sequences (set together with fresh_thread)
 };
+// How often a check whose verdict depends on a thread schedule should execute its case: once while exploring, `n` times when
+// a saved case is replayed (any failing run is a violation - the oracle is exact - so repeating only adds power).
+inline int replay_rounds(int n) { return getenv("VK_REPLAY") ? n : 1; }
 inline bool& fresh_thread_default() { static bool v = false; return v; }
 struct FreshThreadOn { FreshThreadOn() { fresh_thread_default() = true; } };
 
@@ -554,6 +593,7 @@ inline int harness_main(const char* property, int argc, char** argv) {
     if (const char* sc = getenv("VERIF_SCALE")) { if (*sc) ctx.scale = atof(sc); }
 
     if (!replay_path.empty()) {
+        setenv("VK_REPLAY", "1", 1);   // schedule-dependent checks repeat the case in replay mode (see replay_rounds())
         Json r = Json::parse(read_file(replay_path));
         std::string sname = r.gets("subcheck");
         for (auto& s : registry()) {
@@ -583,6 +623,7 @@ inline int harness_main(const char* property, int argc, char** argv) {
         auto t0 = std::chrono::steady_clock::now();
         try {
             s.gen(ctx);
+            ctx.flush();
         } catch (const std::exception& e) {
             ctx.note(std::string("harness-error: generator threw: ") + e.what());
             ctx.harness_errors++;
